@@ -247,7 +247,7 @@ package keeper
 //@     && !amount.IsNil() && amount >= 0 && amount <= $pIL[owner][j] - old($pS[owner][j]) - $pW[owner][j])
 //@   ensures returnedError == nil ==> poolsOK(owner)
 //@   // C08: the new account: amount*(1-free) vests, on the restart schedule or at the pool's lock end
-//@   ensures returnedError == nil ==> (let j = lastNamed(old($pName[owner]), vestingPoolName, old($pLen[owner])) in let a = fromBech32(toAddr) in
+//@   ensures [new-account-schedule] returnedError == nil ==> (let j = lastNamed(old($pName[owner]), vestingPoolName, old($pLen[owner])) in let a = fromBech32(toAddr) in
 //@     let ty = old($pType[owner][j]) in
 //@     $accTag[a] == accType("cva") && $accOV[a][$vestingDenom] == tquo(amount * (P - $vtFree[ty]), P)
 //@     && (restartVesting ==> $accStart[a] == fdiv($blockTime + $vtLockup[ty], 1000000000) && $accEnd[a] == fdiv($blockTime + $vtLockup[ty] + $vtVesting[ty], 1000000000))
